@@ -49,7 +49,15 @@ fn do_op(db: &Db, op: usize, rng: &mut Rng, seq: &AtomicU64) -> Result<(), Strin
         }
         4 => db.compact().map_err(|e| e.to_string()),
         5 => db.checkpoint().map_err(|e| e.to_string()),
-        6 => db.create_index("P", ["age", "name", "t"][rng.below(3)]).map_err(|e| e.to_string()),
+        6 => {
+            // creating an index that exists already returns early: half of the calls create a new
+            // one, so that the whole creation path (catalog, then pages) keeps running
+            if rng.chance(1, 2) {
+                db.create_index("P", &format!("f{}", seq.fetch_add(1, Ordering::SeqCst))).map_err(|e| e.to_string())
+            } else {
+                db.create_index("P", ["age", "name", "t"][rng.below(3)]).map_err(|e| e.to_string())
+            }
+        }
         7 => {
             let mut txn = db.begin_write();
             let l = txn.get_or_create_label("V").map_err(|e| e.to_string())?;
@@ -94,7 +102,14 @@ fn potential_cycles(edges: &BTreeMap<(String, String), BTreeSet<String>>) -> Vec
     out.into_iter().collect()
 }
 
+/// `roles`: thread t only runs `mix[t % mix.len()]` (used by the directed confirmation: with a
+/// random mix every thread soon queues up behind the writer lock and nobody is left to take the
+/// other side of an inversion).
 fn stress(ctl: &Arc<Ctl>, seed: u64, threads: usize, secs: u64, mix: &[usize], out: &mut CaseOut) {
+    stress_with(ctl, seed, threads, secs, mix, false, out)
+}
+
+fn stress_with(ctl: &Arc<Ctl>, seed: u64, threads: usize, secs: u64, mix: &[usize], roles: bool, out: &mut CaseOut) {
     let dir = ScratchDir::new("c35");
     let Ok(db) = Db::open(dir.db_base()) else {
         out.inconclusive("open");
@@ -105,6 +120,15 @@ fn stress(ctl: &Arc<Ctl>, seed: u64, threads: usize, secs: u64, mix: &[usize], o
         let _ = marker_tx(&db, k);
     }
     let _ = db.create_index("P", "age");
+    // enough vectors that the B-trees behind the vector index are about to split their roots:
+    // the rare paths of a vector insert are then reached early in every round
+    {
+        let mut rng = Rng::derive(seed, 0xBEEF);
+        let seq0 = AtomicU64::new(8_000_000);
+        for _ in 0..26 {
+            let _ = do_op(&db, 7, &mut rng, &seq0);
+        }
+    }
     ctl.lock_monitoring.store(true, Ordering::Relaxed);
     ctl.noise.store(11, Ordering::Relaxed);
     let stop = Arc::new(AtomicBool::new(false));
@@ -113,14 +137,16 @@ fn stress(ctl: &Arc<Ctl>, seed: u64, threads: usize, secs: u64, mix: &[usize], o
     let current: Arc<Mutex<Vec<Option<(usize, Instant)>>>> = Arc::new(Mutex::new(vec![None; threads]));
     let done: Arc<Vec<AtomicU64>> = Arc::new((0..OPS.len()).map(|_| AtomicU64::new(0)).collect());
     let overlaps: Arc<Mutex<BTreeSet<(usize, usize)>>> = Arc::new(Mutex::new(BTreeSet::new()));
+    let first_errors: Arc<Mutex<BTreeMap<usize, (u64, String)>>> = Arc::new(Mutex::new(BTreeMap::new()));
     let mut hs = Vec::new();
     for t in 0..threads {
         let (db, stop, seq, current, done, overlaps) = (db.clone(), stop.clone(), seq.clone(), current.clone(), done.clone(), overlaps.clone());
+        let first_errors = first_errors.clone();
         let mix: Vec<usize> = mix.to_vec();
         hs.push(std::thread::spawn(move || {
             let mut rng = Rng::derive(seed, t as u64);
             while !stop.load(Ordering::Relaxed) {
-                let op = mix[rng.below(mix.len())];
+                let op = if roles { mix[t % mix.len()] } else { mix[rng.below(mix.len())] };
                 {
                     let mut c = current.lock().unwrap();
                     c[t] = Some((op, Instant::now()));
@@ -131,7 +157,11 @@ fn stress(ctl: &Arc<Ctl>, seed: u64, threads: usize, secs: u64, mix: &[usize], o
                         }
                     }
                 }
-                let _ = do_op(&db, op, &mut rng, &seq);
+                if let Err(e) = do_op(&db, op, &mut rng, &seq) {
+                    let mut f = first_errors.lock().unwrap();
+                    let entry = f.entry(op).or_insert((0u64, e.clone()));
+                    entry.0 += 1;
+                }
                 done[op].fetch_add(1, Ordering::Relaxed);
                 current.lock().unwrap()[t] = None;
             }
@@ -160,6 +190,15 @@ fn stress(ctl: &Arc<Ctl>, seed: u64, threads: usize, secs: u64, mix: &[usize], o
     out.evaluations += total;
     for (i, d) in done.iter().enumerate() {
         out.count(&format!("ops.{}", OPS[i]), d.load(Ordering::Relaxed));
+    }
+    if std::env::var("VERIF_DEBUG_LOCKS").is_ok() {
+        eprintln!("round mix={:?} done={:?} errors={:?}", mix, done.iter().map(|d| d.load(Ordering::Relaxed)).collect::<Vec<_>>(), first_errors.lock().unwrap());
+    }
+    for (op, (n, e)) in first_errors.lock().unwrap().iter() {
+        out.count(&format!("op_errors.{}", OPS[*op]), *n);
+        if out.samples.len() < 6 {
+            out.samples.push(json!({"operation_error": OPS[*op], "count": n, "first": e}));
+        }
     }
     for (a, b) in overlaps.lock().unwrap().iter() {
         out.cell(format!("overlap:{}+{}", OPS[*a], OPS[*b]));
@@ -221,6 +260,45 @@ pub fn main(args: &Args) -> Report {
     for c in ctl.cycles_seen() {
         out.count("transient_or_real_wait_cycles_seen_at_attempt", 1);
         let _ = c;
+    }
+    // Directed confirmation: a gate-free cycle in the lock-order graph says two operations take
+    // the same locks in opposite orders. Re-run the stress with every thread delayed at exactly
+    // those (held, attempted) points: if the inversion is feasible the threads meet there and the
+    // live wait-for cycle (a definitive deadlock) appears; if not, it stays an unconfirmed potential.
+    if !pots.is_empty() {
+        // only the rarely taken edges of a cycle are delayed: delaying the frequent side would
+        // slow the workload so much that the rare path is never reached again
+        let counts = ctl.edge_counts();
+        let mut pairs: BTreeSet<(String, String)> = BTreeSet::new();
+        for p in &pots {
+            let nodes: Vec<&str> = p.split(" -> ").collect();
+            let edges_of: Vec<(String, String)> = nodes.windows(2).map(|w| (w[0].to_string(), w[1].to_string())).collect();
+            let rarest = edges_of.iter().map(|e| counts.get(e).copied().unwrap_or(0)).min().unwrap_or(0);
+            for e in edges_of {
+                if counts.get(&e).copied().unwrap_or(0) <= rarest.saturating_mul(4).max(20) {
+                    pairs.insert(e);
+                }
+            }
+        }
+        out.samples.push(json!({"delayed_edges": pairs.iter().map(|(a, b)| format!("{a} -> {b} ({} times in the main rounds)", counts.get(&(a.clone(), b.clone())).copied().unwrap_or(0))).collect::<Vec<_>>()}));
+        out.count("potential_cycles_put_to_directed_confirmation", pots.len() as u64);
+        ctl.set_suspects(pairs);
+        let before = out.violations.len();
+        // the usual mixes, and pairs of the operations that take locks outside the writer lock
+        // (index creation) with each kind of writer, so that both sides of an inversion are busy
+        let mut confirm_mixes: Vec<Vec<usize>> = vec![vec![6, 7], vec![6, 0, 1], vec![6, 4, 5], vec![6, 7, 8, 3]];
+        confirm_mixes.extend(mixes.iter().cloned());
+        for (i, mix) in confirm_mixes.iter().enumerate() {
+            if out.violations.len() > before {
+                break;
+            }
+            stress_with(&ctl, args.seed ^ 0xC0F ^ i as u64, 8, if thorough { 20 } else { 8 }, mix, i < 4, &mut out);
+        }
+        out.count("pauses_at_suspected_inversion_points", ctl.suspect_pauses());
+        if out.violations.len() > before {
+            out.count("potential_cycles_confirmed_as_deadlock", 1);
+        }
+        ctl.set_suspects(BTreeSet::new());
     }
     Ctl::uninstall();
     out.count("lock_order_edges", edges.len() as u64);
